@@ -408,9 +408,27 @@ var scenarios = []scenario{
 		}
 		s.Start()
 		s.VerifSetFlushRate(1e-9)
+		// Close is issued once the writer has really reached its wait (a fixed sleep is not enough on a loaded machine: a writer that
+		// registers only after Close has stopped the flusher is a use after Close, not the situation this scenario is about)
+		reached := make(chan struct{})
+		var ronce sync.Once
+		verifhook.Set(func(p string) {
+			if p == "store.flushTick.beforeWait" {
+				ronce.Do(func() { close(reached) })
+			}
+		})
+		defer verifhook.Set(nil)
 		done := make(chan struct{})
 		go func() { s.Put(key(1), []byte("0123456789")); close(done) }()
-		time.Sleep(5 * time.Millisecond)
+		select {
+		case <-reached:
+		case <-done:
+			// the periodic flusher was faster than the writer: nothing waited
+		case <-time.After(10 * time.Second):
+			s.Close()
+			return "SKIP the writer never reached its wait"
+		}
+		time.Sleep(2 * time.Millisecond)
 		if err := s.Close(); err != nil {
 			return "Close: " + err.Error()
 		}
